@@ -568,6 +568,25 @@ class CallMixin:
             return [("val", args[1], st)]
         if short in ("TypeVar", "typing.TypeVar", "ParamSpec", "typing.ParamSpec"):
             return [("val", ExtRef("typevar"), st)]
+        if short in ("datetime.datetime", "datetime") and args and all(isinstance(a, int) for a in args) and set(kwargs) <= {"tzinfo"}:
+            tz = kwargs.get("tzinfo")
+            if isinstance(tz, ExtRef) and tz.name.split(".")[-1] in ("UTC", "utc"):
+                import calendar
+                from .values import dt_off
+                full = list(args) + [1, 1, 0, 0, 0][len(args) - 1:] if len(args) < 6 else list(args[:6])
+                full = (list(args) + [0] * 6)[:6]
+                secs = calendar.timegm((full[0], full[1], full[2], full[3], full[4], full[5], 0, 0, 0))
+                d = fresh("dt", "const")   # a concrete UTC instant (S: proleptic Gregorian seconds since the epoch)
+                st.assume(dt_ts(d.t) == secs + (args[6] if len(args) > 6 else 0) / 1_000_000)
+                st.assume(dt_off(d.t) == 0)
+                return [("val", d, st)]
+            raise Unsupported("datetime constructor with a zone other than UTC")
+        if short in ("datetime.timedelta", "timedelta") and not args and all(isinstance(v_, (int, float)) for v_ in kwargs.values()):
+            unit = {"days": 86400.0, "hours": 3600.0, "minutes": 60.0, "seconds": 1.0, "milliseconds": 0.001, "microseconds": 0.000001}
+            if not set(kwargs) <= set(unit):
+                raise Unsupported("timedelta unit")
+            total = z3.Sum([z3.RealVal(str(v_)) * z3.RealVal(str(unit[k_])) for k_, v_ in kwargs.items()] + [z3.RealVal(0)])
+            return [("val", Sym("td", simp(total)), st)]
         if short == "re.compile":
             return [("val", st.alloc("opaque:re.Pattern", {"pattern": args[0]}), st)]
         if short == "logging.getLogger":
@@ -672,6 +691,11 @@ class CallMixin:
         if is_sym(recv, "dt"):
             if name == "timestamp":
                 return [("val", Sym("real", dt_ts(recv.t)), st)]
+            if name == "astimezone" and not args and not kwargs:
+                from .values import dt_off
+                d = fresh("dt", "astimezone")  # the same instant, expressed in the local zone (S)
+                st.assume(dt_ts(d.t) == dt_ts(recv.t))
+                return [("val", d, st)]
             if name == "replace" and set(kwargs) == {"tzinfo"} and isinstance(kwargs["tzinfo"], ExtRef) and kwargs["tzinfo"].name.split(".")[-1] in ("UTC", "utc"):
                 from .values import dt_off
                 d = fresh("dt", "replaced")  # same wall-clock fields, zone forced to UTC: the instant moves by the old offset
